@@ -72,6 +72,8 @@ type ctReq struct {
 	J    interface{}   `vd:"$==nil||len($)>=0"`
 	// a multi-level pointer to a struct with a nested rule: nil at any level means there is nothing to check
 	PPP ***ctMid
+	// the same with a rule on the member itself (nil at any level is nil)
+	PPQ ***ctMid `vd:"$==nil||$!=nil"`
 	// a sub-field reference through an embedded pointer that may be nil
 	Emb ctEmb `vd:"$['ID']==nil||$['ID']>0"`
 	// containers two levels deep inside one member
@@ -79,6 +81,9 @@ type ctReq struct {
 	LM []map[string]interface{}
 	ML map[string][]interface{}
 	LK [][]map[ctKey]int
+	// pointers to containers, nil ones among them: nothing to check behind a nil pointer
+	LP []*[]interface{}
+	MP map[string]*[]interface{}
 }
 
 // plan of a value; everything drawn by rapid
@@ -104,7 +109,7 @@ type ctPlan struct {
 	PPP    ctLeaf
 	Emb    ctLeaf // Nil: the embedded pointer is nil
 	Deep   []ctLeaf
-	DeepAt []int // 0 LL, 1 LM, 2 ML, 3 LK (the leaf is the key)
+	DeepAt []int // 0 LL, 1 LM, 2 ML, 3 LK (the leaf is the key), 4 LP, 5 MP (each beside a nil pointer)
 }
 
 func drawLeaf(t *rapid.T, label string) ctLeaf {
@@ -147,7 +152,7 @@ func drawPlan(t *rapid.T) *ctPlan {
 	p.Deep = drawLeaves(t, "deep", 3)
 	p.DeepAt = make([]int, len(p.Deep))
 	for i := range p.DeepAt {
-		p.DeepAt[i] = rapid.IntRange(0, 3).Draw(t, fmt.Sprintf("deepAt%d", i))
+		p.DeepAt[i] = rapid.IntRange(0, 5).Draw(t, fmt.Sprintf("deepAt%d", i))
 	}
 	return p
 }
@@ -265,6 +270,15 @@ func (p *ctPlan) build() (v *ctReq, ok bool, leaves int) {
 	}
 	switch p.PPPNil {
 	case 1:
+		var q **ctMid
+		v.PPQ = &q
+	case 2:
+		var q *ctMid
+		r := &q
+		v.PPQ = &r
+	}
+	switch p.PPPNil {
+	case 1:
 		var a **ctMid
 		v.PPP = &a
 	case 2:
@@ -308,6 +322,14 @@ func (p *ctPlan) build() (v *ctReq, ok bool, leaves int) {
 				v.ML = map[string][]interface{}{}
 			}
 			v.ML[fmt.Sprintf("k%d", i)] = []interface{}{e}
+		case 4:
+			v.LP = append(v.LP, nil, &[]interface{}{e})
+		case 5:
+			if v.MP == nil {
+				v.MP = map[string]*[]interface{}{}
+			}
+			v.MP[fmt.Sprintf("k%d", i)] = &[]interface{}{e}
+			v.MP[fmt.Sprintf("n%d", i)] = nil
 		}
 	}
 	return v, ok, leaves
